@@ -8,8 +8,8 @@ import numpy as np
 def _build(dt, transforms, initial):
     from oqupy.process_tensor import SimpleProcessTensor
     rng = np.random.default_rng(3)
-    tin = rng.normal(size=(4, 4)) if transforms else None
-    tout = rng.normal(size=(4, 4)) if transforms else None
+    tin = rng.normal(size=(4, 4)) if transforms in (True, 'in-only') else None
+    tout = rng.normal(size=(4, 4)) if transforms in (True, 'out-only') else None
     pt = SimpleProcessTensor(2, dt=dt, transform_in=tin, transform_out=tout, name='nm', description='ds')
     pt.set_mpo_tensor(0, rng.normal(size=(1, 3, 4)))          # rank 3
     pt.set_mpo_tensor(1, rng.normal(size=(3, 2, 4, 4)))       # rank 4
@@ -34,35 +34,38 @@ def roundtrip(inp):
     try:
         k = 0
         for dt in (0.1, None):
-            for transforms in (False, True):
+            for transforms in (False, True, 'in-only', 'out-only'):
                 for initial in (False, True):
                     pt = _build(dt, transforms, initial)
                     fn = os.path.join(d, 'pt%d.h5' % k)
                     k += 1
-                    pt.export(fn)
-                    for kind in ('file', 'simple'):
-                        q = import_process_tensor(fn, kind)
-                        what = []
-                        if len(q) != len(pt):
-                            what.append('length')
-                        if q.dt != pt.dt or q.hilbert_space_dimension != 2 or q.name != 'nm' or q.description != 'ds':
-                            what.append('metadata')
-                        if not _same(q.transform_in, pt.transform_in) or not _same(q.transform_out, pt.transform_out):
-                            what.append('transforms')
-                        if not _same(q.get_initial_tensor(), pt.get_initial_tensor()):
-                            what.append('initial tensor: %r vs %r' % (q.get_initial_tensor() if q.get_initial_tensor() is None else 'array', 'None' if pt.get_initial_tensor() is None else 'array'))
-                        for s in range(len(pt)):
-                            if not _same(q.get_mpo_tensor(s), pt.get_mpo_tensor(s)):
-                                what.append('mpo %d' % s)
-                        for s in range(len(pt) + 1):
-                            if not _same(q.get_cap_tensor(s), pt.get_cap_tensor(s)):
-                                what.append('cap %d' % s)
-                        if q.get_cap_tensor(len(pt) + 1) is not None:
-                            what.append('extra cap')
-                        if kind == 'file':
-                            q.close()
-                        if what:
-                            bad.append({'dt': dt, 'transforms': transforms, 'initial': initial, 'import_type': kind, 'differs': what[:4]})
+                    try:
+                        pt.export(fn)
+                        for kind in ('file', 'simple'):
+                            q = import_process_tensor(fn, kind)
+                            what = []
+                            if len(q) != len(pt):
+                                what.append('length')
+                            if q.dt != pt.dt or q.hilbert_space_dimension != 2 or q.name != 'nm' or q.description != 'ds':
+                                what.append('metadata')
+                            if not _same(q.transform_in, pt.transform_in) or not _same(q.transform_out, pt.transform_out):
+                                what.append('transforms')
+                            if not _same(q.get_initial_tensor(), pt.get_initial_tensor()):
+                                what.append('initial tensor: %r vs %r' % (q.get_initial_tensor() if q.get_initial_tensor() is None else 'array', 'None' if pt.get_initial_tensor() is None else 'array'))
+                            for s in range(len(pt)):
+                                if not _same(q.get_mpo_tensor(s), pt.get_mpo_tensor(s)):
+                                    what.append('mpo %d' % s)
+                            for s in range(len(pt) + 1):
+                                if not _same(q.get_cap_tensor(s), pt.get_cap_tensor(s)):
+                                    what.append('cap %d' % s)
+                            if q.get_cap_tensor(len(pt) + 1) is not None:
+                                what.append('extra cap')
+                            if kind == 'file':
+                                q.close()
+                            if what:
+                                bad.append({'dt': dt, 'transforms': transforms, 'initial': initial, 'import_type': kind, 'differs': what[:4]})
+                    except Exception as e:      # noqa
+                        bad.append({'dt': dt, 'transforms': transforms, 'initial': initial, 'unexpected exception': type(e).__name__ + ': ' + str(e)[:100]})
     finally:
         for f in os.listdir(d):
             os.remove(os.path.join(d, f))
